@@ -139,6 +139,7 @@ func (vm *Vm) Run(ctx context.Context, b []byte) ([]byte, error) {
 		waitChange := vm.st.ResetFlag(state.FLAG_WAIT)
 		if waitChange {
 			vm.st.ResetFlag(state.FLAG_INMATCH)
+			vm.pg.WithError(nil)
 			vm.pg.Reset()
 			vm.mn.Reset()
 		}
